@@ -23,7 +23,7 @@ func (c09) Rule() string {
 func (c09) Assumptions() []string {
 	return []string{
 		"the destination honours the io.Writer contract (a short count comes with an error)",
-		"the client stops after the first API call that fails, as a real caller would; later calls are outside the property",
+		"the client stops issuing work after the first API call that fails, as a real caller would; the one later call that is made is Close after a failed Write (the `defer w.Close()` idiom), which must not panic whatever it returns",
 		"one fault plan per run (single failing call, or failing from call k on)",
 	}
 }
@@ -162,6 +162,11 @@ func (p c09) check(c *core.Case) (v *core.Violation, fired bool, steps int) {
 	}
 	if !fired {
 		return nil, false, steps
+	}
+	// the `defer w.Close()` idiom: a caller whose Write failed still closes the writer; that must not panic
+	if called, pan := res.CloseAfterFailure(); called && pan != "" {
+		return &core.Violation{Prop: "C09", Sig: "C09/panic/Close-after-failed-Write",
+			Detail: fmt.Sprintf("sink call %d failed during %s, which returned its error; the deferred Close then panicked: %s", firstFailed(sink), sink.FirstFailAPI, pan), Case: c}, true, steps
 	}
 	api := sink.FirstFailAPI
 	for _, a := range res.APIs {
